@@ -1,36 +1,44 @@
 #!/bin/bash
-# usage: tools/verify_seeded.sh <property id> <dir with patch.diff + demo_test.rs (+ demo_crate: name of crate whose tests/ dir takes the demo)>
-# Confirms in a scratch worktree (outside /repo and /verif) that the seeded change (1) applies and compiles, (2) passes the
-# repository's own test suite, (3) makes the demonstration fail, and that the demonstration passes without it. Then runs the
-# property's quick check with the change applied to /repo and reverts it. Prints a summary; leaves nothing behind.
+# Phase A (parallelisable): tools/verify_seeded.sh A <tag> <dir with patch.diff + demo + meta.json>
+#   In a scratch worktree outside /repo and /verif: the demonstration passes without the change, fails with it, and the
+#   repository's own test suite still passes with the change (tests that fail are re-run alone once: several suites
+#   running on one machine collide on the fixed ports of the owner_v3 tests).
+# Phase B (serial): tools/verify_seeded.sh B <property id> <dir>
+#   Applies the change to /repo, runs the property's quick check, reverts.
 set -u
-id=$1; src=$(cd "$2" && pwd)
-wt=/tmp/vs/wt-$id
-export CARGO_TARGET_DIR=/tmp/vs/target CARGO_NET_OFFLINE=true
-mkdir -p /tmp/vs
-git -C /repo worktree remove --force "$wt" >/dev/null 2>&1
-git -C /repo worktree add --detach "$wt" HEAD >/dev/null 2>&1 || { echo "worktree failed"; exit 3; }
-cleanup() { git -C /repo worktree remove --force "$wt" >/dev/null 2>&1; }
-trap cleanup EXIT
-crate=$(python3 -c "import json;print(json.load(open('$src/meta.json')).get('demo_crate','controller'))")
-demo=$(python3 -c "import json;print(json.load(open('$src/meta.json')).get('demo_file','demo_test.rs'))")
-tname=$(basename "$demo" .rs)
-mkdir -p "$wt/$crate/tests"
-cp "$src/$demo" "$wt/$crate/tests/$tname.rs"
-cd "$wt"
-echo "== demo WITHOUT the change (must pass)"
-( cd "$crate" && cargo test --offline --test "$tname" 2>&1 | grep -E "^test |test result|error" | tail -8 ); r0=${PIPESTATUS[0]}
-( cd "$crate" && cargo test --offline --test "$tname" >/dev/null 2>&1 ); r0=$?
-git apply "$src/patch.diff" || { echo "PATCH DOES NOT APPLY"; exit 3; }
-echo "== demo WITH the change (must fail)"
-( cd "$crate" && cargo test --offline --test "$tname" 2>&1 | grep -E "^test |test result|panicked|error\[" | tail -8 )
-( cd "$crate" && cargo test --offline --test "$tname" >/dev/null 2>&1 ); r1=$?
-rm -f "$wt/$crate/tests/$tname.rs"
-echo "== repository test suite WITH the change (must pass)"
-cargo test --workspace --no-fail-fast --offline > /tmp/vs/suite-$id.log 2>&1; rs=$?
-grep -E "^test result" /tmp/vs/suite-$id.log | awk '{p+=$4; f+=$6} END {print "suite: passed",p,"failed",f}'
-grep -E "^test .* FAILED" /tmp/vs/suite-$id.log | head
-echo "== property check WITH the change applied to /repo"
-cd /repo && git apply "$src/patch.diff" && ( cd /verif && ./check $id > /tmp/vs/check-$id.log 2>&1; echo "check exit=$?" ; head -6 /tmp/vs/check-$id.log | cut -c1-400 ); git -C /repo checkout -- . 
-git -C /repo status --short | head -3
-echo "SUMMARY id=$id demo_without=$r0 demo_with=$r1 suite=$rs"
+phase=$1; tag=$2; src=$(cd "$3" && pwd)
+export CARGO_NET_OFFLINE=true
+if [ "$phase" = "A" ]; then
+  wt=/tmp/vs/wt-$tag
+  export CARGO_TARGET_DIR=/tmp/vs/target-$tag
+  mkdir -p /tmp/vs
+  git -C /repo worktree remove --force "$wt" >/dev/null 2>&1
+  git -C /repo worktree add --detach "$wt" HEAD >/dev/null 2>&1 || { echo "worktree failed"; exit 3; }
+  crate=$(python3 -c "import json;print(json.load(open('$src/meta.json')).get('demo_crate','controller'))")
+  demo=$(python3 -c "import json;print(json.load(open('$src/meta.json')).get('demo_file','demo_test.rs'))")
+  demo=$(basename "$demo"); tname=$(basename "$demo" .rs)
+  mkdir -p "$wt/$crate/tests"; cp "$src/$demo" "$wt/$crate/tests/$tname.rs"
+  cd "$wt/$crate"
+  cargo test --offline --test "$tname" > /tmp/vs/demo0-$tag.log 2>&1; r0=$?
+  cd "$wt"; git apply "$src/patch.diff" || { echo "SUMMARY tag=$tag PATCH-DOES-NOT-APPLY"; exit 3; }
+  cd "$wt/$crate"; cargo test --offline --test "$tname" > /tmp/vs/demo1-$tag.log 2>&1; r1=$?
+  rm -f "$wt/$crate/tests/$tname.rs"; cd "$wt"
+  cargo test --workspace --no-fail-fast --offline > /tmp/vs/suite-$tag.log 2>&1; rs=$?
+  failed=$(grep -E "^test .* \.\.\. FAILED" /tmp/vs/suite-$tag.log | awk '{print $2}' | sort -u | tr '\n' ' ')
+  still=""
+  if [ -n "$failed" ]; then
+    for t in $failed; do
+      sleep $((RANDOM % 20))
+      cargo test --workspace --offline "$t" > /tmp/vs/rerun-$tag-$(echo $t | tr ':' '_').log 2>&1 || still="$still $t"
+    done
+  fi
+  pass=$(grep -E "^test result" /tmp/vs/suite-$tag.log | awk '{p+=$4} END {print p}')
+  echo "SUMMARY tag=$tag demo_without_exit=$r0 demo_with_exit=$r1 suite_exit=$rs suite_passed=$pass first_failed=[${failed}] still_failing_alone=[${still}]"
+  git -C /repo worktree remove --force "$wt" >/dev/null 2>&1
+  rm -rf "$CARGO_TARGET_DIR"
+else
+  cd /repo && git status --short | grep -q . && { echo "/repo not clean"; exit 3; }
+  git apply "$src/patch.diff" || { echo "PATCH-DOES-NOT-APPLY to /repo"; exit 3; }
+  ( cd /verif && ./check $tag > /tmp/vs/check-$tag.log 2>&1; echo "CHECK $tag exit=$?"; grep -E "^(VIOLATION|  signature|KNOWN|C[0-9]+ tier|INCONCL|HARNESS|BUILD)" /tmp/vs/check-$tag.log | cut -c1-300 | head -12 )
+  git -C /repo checkout -- . ; git -C /repo status --short | head -3
+fi
